@@ -9,6 +9,7 @@ A harness module mc/harness/<id>.py provides
 import importlib
 import json
 import os
+import pickle
 import subprocess
 import sys
 import time
@@ -32,6 +33,7 @@ class Ctx:
         self.samples = []
         self.assumptions = []
         self.violations = []  # (sig, case, detail)
+        self.payload_of = {}  # index into violations -> worker payload that produced it
         self.internal_errors = []
         self.aborts = 0
         self.timeouts = 0
@@ -68,8 +70,11 @@ class Ctx:
         if isinstance(res, dict) and "internal_error" in res:
             self.internal(res["internal_error"])
             return None
+        payload = res.get("_payload") if isinstance(res, dict) else None
         for v in res.get("violations", ()):
             self.violation(*v)
+            if payload is not None:
+                self.payload_of[len(self.violations) - 1] = (payload, res.get("_history"))
         return res
 
 
@@ -81,14 +86,14 @@ def _replay_path(prop, key):
     return os.path.join(d, hashlib.sha1(key.encode()).hexdigest()[:12] + ".json")
 
 
-def _run_replay_subprocess(prop, path, hashseed):
+def _run_replay_subprocess(prop, path, hashseed, flag="--replay"):
     env = dict(os.environ)
     env["PYTHONHASHSEED"] = str(hashseed)
     env["PYTHONPATH"] = VERIF_ROOT + os.pathsep + REPO_SRC
     env["PYTHONDONTWRITEBYTECODE"] = "1"
     try:
         p = subprocess.run(
-            [PYTHON, "-u", "-m", "mc.runner", prop, "--replay", path, "--json"],
+            [PYTHON, "-u", "-m", "mc.runner", prop, flag, path, "--json"],
             env=env, cwd=VERIF_ROOT, capture_output=True, text=True, timeout=600,
         )
     except subprocess.TimeoutExpired:
@@ -103,10 +108,12 @@ def _run_replay_subprocess(prop, path, hashseed):
 def finish(ctx, mod):
     known = KnownFindings(ctx.prop)
     buckets = {}
-    for sig, case, detail in ctx.violations:
+    first_index = {}
+    for idx, (sig, case, detail) in enumerate(ctx.violations):
         k = sig_key(sig)
         if k not in buckets:
             buckets[k] = (sig, case, detail, 1)
+            first_index[k] = idx
         else:
             s, c, d, n = buckets[k]
             buckets[k] = (s, c, d, n + 1)
@@ -138,8 +145,28 @@ def finish(ctx, mod):
                 elif out is None and sig.get("kind") in ("abort", "timeout"):
                     ok += 1  # the replay died again: reproduced
             if ok < 2:
-                nondeterministic.append((path, sig))
-                continue
+                # the case does not violate on its own: does it when the whole worker task that produced it is
+                # re-executed in a fresh process (state carried from one case of the task to the next, e.g. a
+                # module-level cache in the library)?  Then it is a reproducible, history-dependent violation.
+                payload, history = ctx.payload_of.get(first_index[k], (None, None))
+                ok2 = 0
+                ppath = path[:-5] + ".task.pkl"
+                for payloads in ([payload], history):
+                    if payload is None or not payloads or ok2 == 2:
+                        continue
+                    with open(ppath, "wb") as fh:
+                        pickle.dump({"property": ctx.prop, "harness": ctx.harness_name, "hashseed": ctx.hashseed,
+                                     "sig": sig, "payloads": payloads, "detail": detail}, fh, protocol=4)
+                    ok2 = 0
+                    for _ in range(2):
+                        out, rc = _run_replay_subprocess(ctx.prop, ppath, ctx.hashseed, "--replay-task")
+                        if out is not None and any(sig_key(o["sig"]) == k for o in out):
+                            ok2 += 1
+                if ok2 < 2:
+                    nondeterministic.append((path, sig))
+                    continue
+                path = ppath
+                detail = "(violates only after the cases that the same worker process ran before it: replay with --replay-task)\n" + str(detail)
         reported += 1
         exit_code = EXIT_VIOLATION
         print(f"VIOLATION property={ctx.prop} replay={path}")
@@ -194,6 +221,34 @@ def main(argv=None):
     if as_json:
         argv.remove("--json")
     mod = importlib.import_module("mc.harness." + prop.lower())
+    if "--replay-task" in argv:
+        # re-execute one whole worker task (list of cases) in this fresh process
+        path = argv[argv.index("--replay-task") + 1]
+        with open(path, "rb") as fh:
+            rec = pickle.load(fh)
+        import warnings
+        import logging
+
+        warnings.filterwarnings("ignore")
+        logging.disable(logging.CRITICAL)
+        from . import assert_repo_cobra
+
+        assert_repo_cobra()
+        import cobra
+
+        cobra.Configuration().processes = 1
+        hmod = importlib.import_module("mc.harness." + rec.get("harness", prop.lower()))
+        res = {}
+        for payload in rec["payloads"]:    # the last one is the task that reported the violation
+            res = hmod.run_task(payload)
+        out = [{"sig": v[0], "detail": str(v[2])[:2000]} for v in res.get("violations", ())]
+        if as_json:
+            print("REPLAY-JSON " + json.dumps(out, default=repr))
+        else:
+            print(f"re-executed the task of {path}: {len(out)} violating cases")
+            for o in out[:5]:
+                print("observed:", json.dumps(o["sig"], sort_keys=True))
+        return EXIT_VIOLATION if out else EXIT_OK
     if "--replay" in argv:
         path = argv[argv.index("--replay") + 1]
         with open(path) as fh:
